@@ -23,7 +23,7 @@ SPEC = {
         "gstools.tools.geometric.matrix_isometrize (temporal models)",
         "gstools.variogram.estimator.dist_haversine (E2)",
     ],
-    "bounds": {"quick": {"points": "2 symbolic lat-lon points (any latitude in [-90,90], any longitude), symbolic geo_scale>0, symbolic time and time anisotropy"}, "thorough": {"points": "as quick + kriging matrix/rhs invariance under rotation of the sphere for 2 conditioning points"}},
+    "bounds": {"quick": {"points": "2 symbolic lat-lon points (any latitude in [-90,90], any longitude), symbolic geo_scale>0, symbolic time and time anisotropy"}, "thorough": {"points": "as quick (the chord depends on the longitudes only through cos(lon1 - lon2): invariance under rotation about the polar axis is a corollary of the chord identity); plus cvc5 second opinions"}},
     "stubs": ["sin/cos/arcsin/arctan2/sqrt uninterpreted with sound axioms (principal ranges, injectivity on principal ranges, polar decomposition)", "pi symbolic with 3.1415926<pi<3.1415927"],
     "oracle": "sphere geometry: |p|=R; chord^2 = 2R^2(1-cos(central angle)), central angle by the spherical law of cosines; haversine formula; "
     "Yadrenko: C(zeta) = C_3D(2R sin(zeta/2R)); metric space-time: (x, t/anis_t)",
